@@ -14,6 +14,8 @@ import CookModel.Lemmas.LooseStep
 import CookModel.Lemmas.LooseFront
 import CookModel.Lemmas.TableFacts
 import CookModel.Lemmas.AdvQtyComment
+import CookModel.Lemmas.TextModeSwitch
+import CookModel.Lemmas.InsertWF
 /-
   C17  Line endings, comments and blank space do not change the recipe.
 
@@ -2135,5 +2137,320 @@ theorem C17_advanced_quantity_defect_before_repair {α : Type} [Arith α] (e : E
 
 /-- the tokens of the statement are those of `1 kg` and `1 [- c -]kg` -/
 example : a17qPlain.flatMap (·.text) = "1 kg".toList ∧ a17qGlued.flatMap (·.text) = "1 [- c -]kg".toList := by decide
+
+-- ===== w6c17docwf =====
+/-! ## Wave 6 (notes/audit-C17.md, "Wave 6"): the text-mode exclusion as a decidable predicate on the
+    event list — the `_modes_off` theorems for EVERY extension set (in particular `Extensions::all()`,
+    which has MODES on) -/
+
+/-- **The text-mode exclusion, decidable.**  `TextSwitchFree cs evs` (a `Bool`): no event of the list
+    is a `>>` entry whose trimmed key is `[define]` or `[mode]` and whose trimmed value is `text`.
+    For the events of the pull parser on ANY input, under ANY extension set (MODES on or off), this
+    implies `TextModeFree`: the analysis never copies a component's source text into a text block.
+    (With MODES on the define mode changes only at such entries; the other values — `all`, `default`,
+    `components`, `ingredients`, `steps`, an invalid value — never give mode `text`.)  The exclusion
+    itself is necessary: `C17_text_mode_exclusion_needed`. -/
+theorem C17_text_switch_free_text_mode_free {α : Type} [Arith α] (env : Env) (s : List Char)
+    (hfree : TextSwitchFree env.cs (pullEvents (α := α) env.cs env.ext s).1.toList = true) :
+    TextModeFree env s (pullEvents (α := α) env.cs env.ext s).1.toList {} :=
+  w6m_pullEvents_textModeFree env s hfree
+
+/-- one event: an event that is not such a switch never makes the define mode `text` -/
+theorem C17_define_mode_text_only_by_switch {α : Type} [Arith α] (env : Env) (input : Str) (ev : Ev α)
+    (hev : ev.w6mSetsText env.cs = false) (c : Col α) (hd : c.defineMode ≠ .text) :
+    (processEvent env input ev c).2.defineMode ≠ .text := w6m_processEvent env input ev hev c hd
+
+/-- **CRLF conversion, every backslash-free input, every extension set** (MODES on included): when
+    the events of the LF source contain no switch to define mode `text`, `parse (crlf s)` and
+    `parse s` are `ResSim`-related — equal sections, steps, items, text items, tables, metadata map,
+    same validity, diagnostics of the same kinds in the same order. -/
+theorem C17_crlf_recipe {α : Type} [Arith α] (env : Env) (hcs : CrlfSpec env.cs) (hu : UwsNL env.cs)
+    (s : List Char) (hs : CrlfSafe s)
+    (hfree : TextSwitchFree env.cs (pullEvents (α := α) env.cs env.ext s).1.toList = true) :
+    ResSim env.cs.uws (parseRecipe (α := α) env (crlf s)) (parseRecipe (α := α) env s) :=
+  crlf_parseRecipe_sim env hcs hu s hs (w6m_pullEvents_textModeFree env s hfree)
+
+/-- … in the vocabulary of the property -/
+theorem C17_crlf_same_recipe {α : Type} [Arith α] (ws : Char → Bool) (env : Env) (hcs : CrlfSpec env.cs)
+    (hu : UwsNL env.cs) (s : List Char) (hs : CrlfSafe s)
+    (hfree : TextSwitchFree env.cs (pullEvents (α := α) env.cs env.ext s).1.toList = true) :
+    SameRecipe ws (parseRecipe (α := α) env (crlf s)) (parseRecipe (α := α) env s) :=
+  a17_resSim_same ws (C17_crlf_recipe (α := α) env hcs hu s hs hfree)
+
+/-- **From loose events to the same recipe, every extension set**: two sources whose `PullParser`
+    events are `EvLoose`-related parse to the same recipe when the events of the second contain no
+    switch to define mode `text`. -/
+theorem C17_events_loose_same_recipe {α : Type} [Arith α] (ws : Char → Bool) (env : Env) (s' s : List Char)
+    (h : LRel (EvLoose env.cs) (pullEvents (α := α) env.cs env.ext s').1.toList (pullEvents (α := α) env.cs env.ext s).1.toList)
+    (hfree : TextSwitchFree env.cs (pullEvents (α := α) env.cs env.ext s).1.toList = true) :
+    SameRecipe ws (parseRecipe (α := α) env s') (parseRecipe (α := α) env s) :=
+  a17_resSim_same ws (bl17_parseRecipe_loose env s' s h (w6m_pullEvents_textModeFree env s hfree))
+
+/-- **Extra blank / comment-only line in the source (no front matter), every extension set.** -/
+theorem C17_extra_blank_line_source_same_recipe {α : Type} [Arith α] (ws : Char → Bool) (env : Env) (hu : UwsNL env.cs)
+    (u e0 e x : List Char) (L : List (List Tok)) (hlu : lex env.cs u = L.flatten) (hL : ∀ l ∈ L, IsLine l)
+    (hE0 : EmptyLine (lexFrom env.cs (utf8Len u) e0)) (hE : EmptyLine (lexFrom env.cs (utf8Len u + utf8Len e0) e))
+    (h1 : parseFrontmatter env.cs (u ++ (e0 ++ (e ++ x))) = none) (h2 : parseFrontmatter env.cs (u ++ (e0 ++ x)) = none)
+    (hfree : TextSwitchFree env.cs (pullEvents (α := α) env.cs env.ext (u ++ (e0 ++ x))).1.toList = true) :
+    SameRecipe ws (parseRecipe (α := α) env (u ++ (e0 ++ (e ++ x)))) (parseRecipe (α := α) env (u ++ (e0 ++ x))) :=
+  a17_resSim_same ws
+    (blank_line_source_recipe env hu u e0 e x L hlu hL hE0 hE h1 h2 (w6m_pullEvents_textModeFree env _ hfree))
+
+/-- **A further blank line in front of the front matter, every extension set.** -/
+theorem C17_blank_line_before_frontmatter_same_recipe {α : Type} [Arith α] (ws : Char → Bool) (env : Env)
+    (hu : UwsNL env.cs) (e : List Char) (B Y : List (List Char)) (f1 f2 X : List Char)
+    (he : StrLine e ∧ (trim env.cs.uws e).isEmpty = true)
+    (hB : ∀ l ∈ B, StrLine l ∧ (trim env.cs.uws l).isEmpty = true)
+    (hf1 : StrLine f1 ∧ isFence env.cs f1 = true) (hY : ∀ l ∈ Y, StrLine l ∧ isFence env.cs l = false)
+    (hf2 : StrLine f2 ∧ isFence env.cs f2 = true)
+    (hfree : TextSwitchFree env.cs
+      (pullEvents (α := α) env.cs env.ext (B.flatten ++ (f1 ++ (Y.flatten ++ (f2 ++ X))))).1.toList = true) :
+    SameRecipe ws (parseRecipe (α := α) env (e ++ (B.flatten ++ (f1 ++ (Y.flatten ++ (f2 ++ X))))))
+      (parseRecipe (α := α) env (B.flatten ++ (f1 ++ (Y.flatten ++ (f2 ++ X))))) :=
+  a17_resSim_same ws (bl17_blank_before_front_recipe env hu e B Y f1 f2 X he hB hf1 hY hf2
+    (w6m_pullEvents_textModeFree env _ hfree))
+
+/-- **A blank or comment-only line directly behind the closing fence, every extension set.** -/
+theorem C17_line_after_frontmatter_same_recipe {α : Type} [Arith α] (ws : Char → Bool) (env : Env)
+    (hu : UwsNL env.cs) (e : List Char) (B Y : List (List Char)) (f1 f2 X : List Char)
+    (hB : ∀ l ∈ B, StrLine l ∧ (trim env.cs.uws l).isEmpty = true)
+    (hf1 : StrLine f1 ∧ isFence env.cs f1 = true) (hY : ∀ l ∈ Y, StrLine l ∧ isFence env.cs l = false)
+    (hf2 : StrLine f2 ∧ isFence env.cs f2 = true)
+    (hE : EmptyLine (lexFrom env.cs (utf8Len B.flatten + utf8Len f1 + utf8Len Y.flatten + utf8Len f2) e))
+    (hfree : TextSwitchFree env.cs
+      (pullEvents (α := α) env.cs env.ext (B.flatten ++ (f1 ++ (Y.flatten ++ (f2 ++ X))))).1.toList = true) :
+    SameRecipe ws (parseRecipe (α := α) env (B.flatten ++ (f1 ++ (Y.flatten ++ (f2 ++ (e ++ X))))))
+      (parseRecipe (α := α) env (B.flatten ++ (f1 ++ (Y.flatten ++ (f2 ++ X))))) :=
+  a17_resSim_same ws (bl17_line_after_front_recipe env hu e B Y f1 f2 X hB hf1 hY hf2 hE
+    (w6m_pullEvents_textModeFree env _ hfree))
+
+/-- **Two edits composed, every extension set**: an extra blank / comment-only line and CRLF
+    conversion of the result.  The exclusion is asked of the two LF sources (with and without the
+    line). -/
+theorem C17_crlf_after_extra_blank_line {α : Type} [Arith α] (ws : Char → Bool) (env : Env)
+    (hcs : CrlfSpec env.cs) (hu : UwsNL env.cs)
+    (u e0 e x : List Char) (L : List (List Tok)) (hlu : lex env.cs u = L.flatten) (hL : ∀ l ∈ L, IsLine l)
+    (hE0 : EmptyLine (lexFrom env.cs (utf8Len u) e0)) (hE : EmptyLine (lexFrom env.cs (utf8Len u + utf8Len e0) e))
+    (h1 : parseFrontmatter env.cs (u ++ (e0 ++ (e ++ x))) = none) (h2 : parseFrontmatter env.cs (u ++ (e0 ++ x)) = none)
+    (hs : CrlfSafe (u ++ (e0 ++ (e ++ x))))
+    (hfree' : TextSwitchFree env.cs (pullEvents (α := α) env.cs env.ext (u ++ (e0 ++ (e ++ x)))).1.toList = true)
+    (hfree : TextSwitchFree env.cs (pullEvents (α := α) env.cs env.ext (u ++ (e0 ++ x))).1.toList = true) :
+    SameRecipe ws (parseRecipe (α := α) env (crlf (u ++ (e0 ++ (e ++ x))))) (parseRecipe (α := α) env (u ++ (e0 ++ x))) :=
+  (C17_crlf_same_recipe ws env hcs hu _ hs hfree').a17_trans
+    (C17_extra_blank_line_source_same_recipe ws env hu u e0 e x L hlu hL hE0 hE h1 h2 hfree)
+
+/-- the predicate does not depend on the extension set, and it holds of every list without `>>` entries -/
+theorem C17_text_switch_free_of_no_metadata {α : Type} [Arith α] (cs : CharSpec) (evs : List (Ev α))
+    (h : ∀ ev ∈ evs, ∀ k v, ev ≠ .metadata k v) : TextSwitchFree cs evs = true := w6m_free_of_no_metadata cs evs h
+
+/-! non-vacuity: an environment with MODES ON; an event list with a `>>` entry `[mode]: steps` (a
+    mode switch, but not to `text`) satisfies the predicate; `[mode]: text` is excluded -/
+def C17_toyEnvModes : Env := ⟨toyCharSpec, ⟨Gen.EXT_MODES⟩, fun _ => none, fun _ _ => .ok, fun c => [c], 0⟩
+example : C17_toyEnvModes.ext.has Gen.EXT_MODES = true := by decide
+example : TextSwitchFree (α := Rat) toyCharSpec
+    [.metadata (buildText 3 [tk .word "[mode]".toList]) (buildText 11 [tk .word "steps".toList]),
+     .start .step, .timer ⟨⟨none, none⟩, ⟨0, 0⟩⟩, .stop .step] = true := by decide
+example : TextSwitchFree (α := Rat) toyCharSpec
+    [.metadata (buildText 3 [tk .word "[mode]".toList]) (buildText 11 [tk .word "text".toList])] = false := by decide
+-- ===== end w6c17docwf (part 1) =====
+
+-- ===== w6c17docwf (part 2): the recipe-level theorems at the character table of the real lexer =====
+/-! Every recipe-level theorem of this file is stated for every `Env` (any extension bits, any converter);
+    the ones below restate those that carry a side condition on the character table at the table generated
+    from the real lexer (`env.cs = realCharSpec`: true of `Driver.realEnv ext conv` for every `ext`, `conv`,
+    in particular of the canonical parser `realEnv 0 0` and the extended parser `realEnv 3818 1`), with
+    the side conditions (`CrlfSpec`, `UwsNL`, `uws ' '`) proved for that table, not assumed.
+    `C17_insertion_same_recipe`, `C17_insertion_recipe_wellformed_partial`, `C17_events_loose_same_recipe(_modes_off)`
+    have no table side condition.  `Props/Tables.lean` instantiates them at the two parsers. -/
+
+theorem C17_crlf_recipe_real {α : Type} [Arith α] (env : Env) (hreal : env.cs = realCharSpec)
+    (s : List Char) (hs : CrlfSafe s)
+    (hfree : TextSwitchFree env.cs (pullEvents (α := α) env.cs env.ext s).1.toList = true) :
+    ResSim env.cs.uws (parseRecipe (α := α) env (crlf s)) (parseRecipe (α := α) env s) :=
+  C17_crlf_recipe env (hcs := hreal ▸ C17_crlfSpec_real) (hu := hreal ▸ C17_uwsNL_real) s hs hfree
+
+theorem C17_crlf_same_recipe_real {α : Type} [Arith α] (ws : Char → Bool) (env : Env) (hreal : env.cs = realCharSpec)
+    (s : List Char) (hs : CrlfSafe s)
+    (hfree : TextSwitchFree env.cs (pullEvents (α := α) env.cs env.ext s).1.toList = true) :
+    SameRecipe ws (parseRecipe (α := α) env (crlf s)) (parseRecipe (α := α) env s) :=
+  C17_crlf_same_recipe ws env (hcs := hreal ▸ C17_crlfSpec_real) (hu := hreal ▸ C17_uwsNL_real) s hs hfree
+
+theorem C17_crlf_same_recipe_modes_off_real {α : Type} [Arith α] (ws : Char → Bool) (env : Env)
+    (hreal : env.cs = realCharSpec) (hm : env.ext.has Gen.EXT_MODES = false) (s : List Char) (hs : CrlfSafe s) :
+    SameRecipe ws (parseRecipe (α := α) env (crlf s)) (parseRecipe (α := α) env s) :=
+  C17_crlf_same_recipe_modes_off ws env (hcs := hreal ▸ C17_crlfSpec_real) (hu := hreal ▸ C17_uwsNL_real) hm s hs
+
+theorem C17_extra_blank_line_source_same_recipe_real {α : Type} [Arith α] (ws : Char → Bool) (env : Env)
+    (hreal : env.cs = realCharSpec)
+    (u e0 e x : List Char) (L : List (List Tok)) (hlu : lex env.cs u = L.flatten) (hL : ∀ l ∈ L, IsLine l)
+    (hE0 : EmptyLine (lexFrom env.cs (utf8Len u) e0)) (hE : EmptyLine (lexFrom env.cs (utf8Len u + utf8Len e0) e))
+    (h1 : parseFrontmatter env.cs (u ++ (e0 ++ (e ++ x))) = none) (h2 : parseFrontmatter env.cs (u ++ (e0 ++ x)) = none)
+    (hfree : TextSwitchFree env.cs (pullEvents (α := α) env.cs env.ext (u ++ (e0 ++ x))).1.toList = true) :
+    SameRecipe ws (parseRecipe (α := α) env (u ++ (e0 ++ (e ++ x)))) (parseRecipe (α := α) env (u ++ (e0 ++ x))) :=
+  C17_extra_blank_line_source_same_recipe ws env (hu := hreal ▸ C17_uwsNL_real) u e0 e x L hlu hL hE0 hE h1 h2 hfree
+
+theorem C17_crlf_after_extra_blank_line_real {α : Type} [Arith α] (ws : Char → Bool) (env : Env)
+    (hreal : env.cs = realCharSpec)
+    (u e0 e x : List Char) (L : List (List Tok)) (hlu : lex env.cs u = L.flatten) (hL : ∀ l ∈ L, IsLine l)
+    (hE0 : EmptyLine (lexFrom env.cs (utf8Len u) e0)) (hE : EmptyLine (lexFrom env.cs (utf8Len u + utf8Len e0) e))
+    (h1 : parseFrontmatter env.cs (u ++ (e0 ++ (e ++ x))) = none) (h2 : parseFrontmatter env.cs (u ++ (e0 ++ x)) = none)
+    (hs : CrlfSafe (u ++ (e0 ++ (e ++ x))))
+    (hfree' : TextSwitchFree env.cs (pullEvents (α := α) env.cs env.ext (u ++ (e0 ++ (e ++ x)))).1.toList = true)
+    (hfree : TextSwitchFree env.cs (pullEvents (α := α) env.cs env.ext (u ++ (e0 ++ x))).1.toList = true) :
+    SameRecipe ws (parseRecipe (α := α) env (crlf (u ++ (e0 ++ (e ++ x))))) (parseRecipe (α := α) env (u ++ (e0 ++ x))) :=
+  C17_crlf_after_extra_blank_line ws env (hcs := hreal ▸ C17_crlfSpec_real) (hu := hreal ▸ C17_uwsNL_real)
+    u e0 e x L hlu hL hE0 hE h1 h2 hs hfree' hfree
+
+theorem C17_blank_line_before_frontmatter_same_recipe_real {α : Type} [Arith α] (ws : Char → Bool) (env : Env)
+    (hreal : env.cs = realCharSpec) (e : List Char) (B Y : List (List Char)) (f1 f2 X : List Char)
+    (he : StrLine e ∧ (trim env.cs.uws e).isEmpty = true)
+    (hB : ∀ l ∈ B, StrLine l ∧ (trim env.cs.uws l).isEmpty = true)
+    (hf1 : StrLine f1 ∧ isFence env.cs f1 = true) (hY : ∀ l ∈ Y, StrLine l ∧ isFence env.cs l = false)
+    (hf2 : StrLine f2 ∧ isFence env.cs f2 = true)
+    (hfree : TextSwitchFree env.cs
+      (pullEvents (α := α) env.cs env.ext (B.flatten ++ (f1 ++ (Y.flatten ++ (f2 ++ X))))).1.toList = true) :
+    SameRecipe ws (parseRecipe (α := α) env (e ++ (B.flatten ++ (f1 ++ (Y.flatten ++ (f2 ++ X))))))
+      (parseRecipe (α := α) env (B.flatten ++ (f1 ++ (Y.flatten ++ (f2 ++ X))))) :=
+  C17_blank_line_before_frontmatter_same_recipe ws env (hu := hreal ▸ C17_uwsNL_real) e B Y f1 f2 X he hB hf1 hY hf2 hfree
+
+theorem C17_line_after_frontmatter_same_recipe_real {α : Type} [Arith α] (ws : Char → Bool) (env : Env)
+    (hreal : env.cs = realCharSpec) (e : List Char) (B Y : List (List Char)) (f1 f2 X : List Char)
+    (hB : ∀ l ∈ B, StrLine l ∧ (trim env.cs.uws l).isEmpty = true)
+    (hf1 : StrLine f1 ∧ isFence env.cs f1 = true) (hY : ∀ l ∈ Y, StrLine l ∧ isFence env.cs l = false)
+    (hf2 : StrLine f2 ∧ isFence env.cs f2 = true)
+    (hE : EmptyLine (lexFrom env.cs (utf8Len B.flatten + utf8Len f1 + utf8Len Y.flatten + utf8Len f2) e))
+    (hfree : TextSwitchFree env.cs
+      (pullEvents (α := α) env.cs env.ext (B.flatten ++ (f1 ++ (Y.flatten ++ (f2 ++ X))))).1.toList = true) :
+    SameRecipe ws (parseRecipe (α := α) env (B.flatten ++ (f1 ++ (Y.flatten ++ (f2 ++ (e ++ X))))))
+      (parseRecipe (α := α) env (B.flatten ++ (f1 ++ (Y.flatten ++ (f2 ++ X))))) :=
+  C17_line_after_frontmatter_same_recipe ws env (hu := hreal ▸ C17_uwsNL_real) e B Y f1 f2 X hB hf1 hY hf2 hE hfree
+
+theorem C17_filler_in_component_bodies_same_recipe_real {α : Type} [Arith α] (ws : Char → Bool) (env : Env)
+    (hreal : env.cs = realCharSpec) (pre' pre : List Tok) (docF : List (DocItemF × List Tok))
+    (doc : List (DocItem × List Tok)) (h : DocWF α env pre doc)
+    (hclean : ((docCleanF docF).map (·.1)).map DocItem.core = (doc.map (·.1)).map DocItem.core)
+    (hpre' : blankLinesOK pre' = true) (hok : ∀ d ∈ docF, d.1.OK env.cs env.ext)
+    (hseps : sepsOK (docF.map (·.2)) = true) (hw : WellSpelled env.cs (pre' ++ docSpecF docF))
+    (hfm : parseFrontmatter env.cs (render (pre' ++ docSpecF docF)) = none) :
+    SameRecipe ws (parseRecipe (α := α) env (render (pre' ++ docSpecF docF)))
+      (parseRecipe (α := α) env (render (pre ++ docSpec doc))) :=
+  C17_filler_in_component_bodies_same_recipe ws env (hsp := hreal ▸ tbl_uws_sp) pre' pre docF doc h hclean hpre' hok hseps hw hfm
+
+theorem C17_trailing_comment_on_single_line_blocks_same_recipe_real {α : Type} [Arith α] (ws : Char → Bool) (env : Env)
+    (hreal : env.cs = realCharSpec) (pre' pre : List Tok) (docF : List (DocItemF × List Tok))
+    (doc : List (DocItem × List Tok)) (h : DocWF α env pre doc)
+    (hclean : ((docCleanF docF).map (·.1)).map DocItem.core = (doc.map (·.1)).map DocItem.core)
+    (hpre' : blankLinesOK pre' = true) (hok : ∀ d ∈ docF, d.1.OK env.cs env.ext)
+    (hseps : sepsOK (docF.map (·.2)) = true) (hw : WellSpelled env.cs (pre' ++ docSpecF docF))
+    (hfm : parseFrontmatter env.cs (render (pre' ++ docSpecF docF)) = none) :
+    SameRecipe ws (parseRecipe (α := α) env (render (pre' ++ docSpecF docF)))
+      (parseRecipe (α := α) env (render (pre ++ docSpec doc))) :=
+  C17_trailing_comment_on_single_line_blocks_same_recipe ws env (hsp := hreal ▸ tbl_uws_sp) pre' pre docF doc h hclean hpre'
+    hok hseps hw hfm
+-- ===== end w6c17docwf (part 2) =====
+
+-- ===== w6c17docwf (part 3): well-formedness of the TRANSFORMED document derived =====
+/-- **A step with filler inserted in a text run is a block of the grammar again.**  `DocItem.ok` of a
+    step = every segment within the grammar, every component FOLLOWED as the grammar demands (a braces
+    component without note and a timer not by `(`; a single-word component by no `{` before the next
+    marker ANYWHERE in the rest of the step and by no word / `(`), first token not `>>`, `=`, `>`, and
+    the shape of a multi-line block (no blank line, no line starting with `>>` or `=`).  All of it is
+    inherited when tokens `F` that are white space / block comments / line comments (`IsFiller`) are
+    inserted anywhere in a text run — also the conditions that look at the whole rest of the step
+    (obstacle (iii) of the audit): filler shows neither `{`, `(`, a marker, a word nor a line end. -/
+theorem C17_step_with_filler_in_text_wellformed (cs : CharSpec) (e : Ext) (S1 S2 : List SegX) (l1 F l2 : List Tok)
+    (hF : IsFiller F) (h : (DocItem.step (S1 ++ SegX.text (l1 ++ l2) :: S2)).ok cs e = true) :
+    (DocItem.step (S1 ++ SegX.text (l1 ++ F ++ l2) :: S2)).ok cs e = true :=
+  w6d_step_ok_inText cs e S1 S2 l1 F l2 hF h
+
+/-- … and with filler as a text run of its own (behind a component or at the start of the step, in
+    front of a component or at the end of the step: `@a{} -- c⏎`, `@a{} [- c -]@b{}`), when the filler
+    shows something (holds a blank) and is not placed directly behind a text run (that insertion is
+    the other form, at the end of that run — the case the audit pointed at, two text runs next to
+    each other, is excluded by this condition on the insertion point). -/
+theorem C17_step_with_filler_run_wellformed (cs : CharSpec) (e : Ext) (S1 S2 : List SegX) (F : List Tok)
+    (hF : IsFiller F) (hvis : F.flatMap vis ≠ []) (hS2 : ∀ s, S2.head? = some s → s.isText = false)
+    (hS1 : ∀ s, S1.getLast? = some s → s.isText = false) (h : (DocItem.step (S1 ++ S2)).ok cs e = true) :
+    (DocItem.step (S1 ++ SegX.text F :: S2)).ok cs e = true :=
+  w6d_step_ok_newText cs e S1 S2 F hF hvis hS2 hS1 h
+
+/-- **`DocWF` of the transformed document from `DocWF` of the original** (partial, see MISSING), filler
+    inside a text run of one step of the document `D1 ++ step :: D2`.  Derived: leading blank lines,
+    every block within the grammar (theorem above), plain definitions, plain metadata, the extension
+    conditions of all OTHER segments, the separators.  MISSING (still asked of the transformed text):
+    (a) its spelling — `C17_well_spelled_insertion` reduces it to the filler and its two neighbours;
+    (b) that it has no front-matter fence (obstacle (ii): a line-level argument; a block comment may
+    span lines, so "no line becomes `---`" is a condition on the filler, not a consequence);
+    (c) under INLINE_QUANTITIES only: that the inline-quantity scan finds nothing in the changed run
+    (obstacle (i); void without the extension, `C17_insertion_in_text_same_recipe_inline_off_partial`). -/
+theorem C17_insertion_in_text_wellformed_partial {α : Type} [Arith α] (env : Env) (pre : List Tok)
+    (D1 D2 : List (DocItem × List Tok)) (sep : List Tok) (S1 S2 : List SegX) (l1 F l2 : List Tok) (hF : IsFiller F)
+    (h : DocWF α env pre (D1 ++ (DocItem.step (S1 ++ SegX.text (l1 ++ l2) :: S2), sep) :: D2))
+    (hext : (SegX.text (l1 ++ F ++ l2)).extOK α env)
+    (hw : WellSpelled env.cs (pre ++ docSpec (D1 ++ (DocItem.step (S1 ++ SegX.text (l1 ++ F ++ l2) :: S2), sep) :: D2)))
+    (hfm : parseFrontmatter env.cs
+      (render (pre ++ docSpec (D1 ++ (DocItem.step (S1 ++ SegX.text (l1 ++ F ++ l2) :: S2), sep) :: D2))) = none) :
+    DocWF α env pre (D1 ++ (DocItem.step (S1 ++ SegX.text (l1 ++ F ++ l2) :: S2), sep) :: D2) :=
+  w6d_docWF_inText env pre D1 D2 sep S1 S2 l1 F l2 hF h hext hw hfm
+
+/-- the same for filler as a text run of its own -/
+theorem C17_insertion_run_wellformed_partial {α : Type} [Arith α] (env : Env) (pre : List Tok)
+    (D1 D2 : List (DocItem × List Tok)) (sep : List Tok) (S1 S2 : List SegX) (F : List Tok) (hF : IsFiller F)
+    (hvis : F.flatMap vis ≠ []) (hS2 : ∀ s, S2.head? = some s → s.isText = false)
+    (hS1 : ∀ s, S1.getLast? = some s → s.isText = false)
+    (h : DocWF α env pre (D1 ++ (DocItem.step (S1 ++ S2), sep) :: D2))
+    (hext : (SegX.text F).extOK α env)
+    (hw : WellSpelled env.cs (pre ++ docSpec (D1 ++ (DocItem.step (S1 ++ SegX.text F :: S2), sep) :: D2)))
+    (hfm : parseFrontmatter env.cs
+      (render (pre ++ docSpec (D1 ++ (DocItem.step (S1 ++ SegX.text F :: S2), sep) :: D2))) = none) :
+    DocWF α env pre (D1 ++ (DocItem.step (S1 ++ SegX.text F :: S2), sep) :: D2) :=
+  w6d_docWF_newText env pre D1 D2 sep S1 S2 F hF hvis hS2 hS1 h hext hw hfm
+
+/-- **Trailing comment / trailing blanks / block comment between words of step text: the same recipe,
+    from the well-formedness of the ORIGINAL alone, INLINE_QUANTITIES off** (the canonical parser; partial:
+    spelling and "no fence" of the transformed text are still hypotheses, see above).  `F`: white space
+    / comment tokens showing only white space, next to white space or at the end of the run; the run is
+    followed by a component or the end of the step. -/
+theorem C17_insertion_in_text_same_recipe_inline_off_partial {α : Type} [Arith α] (env : Env) (ws : Char → Bool)
+    (hoff : env.ext.has Gen.EXT_INLINE_QUANTITIES = false) (pre : List Tok)
+    (D1 D2 : List (DocItem × List Tok)) (sep : List Tok) (S1 S2 : List SegX) (l1 F l2 : List Tok) (hF : IsFiller F)
+    (hvis : ∀ c ∈ F.flatMap vis, ws c = true) (hadj : BlankAdj ws (l1.flatMap vis) (l2.flatMap vis))
+    (hS2 : ∀ s, S2.head? = some s → s.isText = false)
+    (h : DocWF α env pre (D1 ++ (DocItem.step (S1 ++ SegX.text (l1 ++ l2) :: S2), sep) :: D2))
+    (hw : WellSpelled env.cs (pre ++ docSpec (D1 ++ (DocItem.step (S1 ++ SegX.text (l1 ++ F ++ l2) :: S2), sep) :: D2)))
+    (hfm : parseFrontmatter env.cs
+      (render (pre ++ docSpec (D1 ++ (DocItem.step (S1 ++ SegX.text (l1 ++ F ++ l2) :: S2), sep) :: D2))) = none) :
+    SameRecipe ws
+      (parseRecipe (α := α) env
+        (render (pre ++ docSpec (D1 ++ (DocItem.step (S1 ++ SegX.text (l1 ++ F ++ l2) :: S2), sep) :: D2))))
+      (parseRecipe (α := α) env
+        (render (pre ++ docSpec (D1 ++ (DocItem.step (S1 ++ SegX.text (l1 ++ l2) :: S2), sep) :: D2)))) := by
+  refine C17_insertion_same_recipe env ws pre pre _ _
+    (w6d_docWF_inText env pre D1 D2 sep S1 S2 l1 F l2 hF h (w6d_text_extOK_off env hoff _) hw hfm) h ?_
+  simp only [List.map_append, List.map_cons]
+  exact C17_insertion_in_one_step ws _ _ _ _ (SegsIns.inText S1 S2 l1 F l2 hvis hadj hS2)
+
+/-! non-vacuity: `Mix [- c -] well⏎` against `Mix well⏎` under the toy environment (no extension): the
+    theorem applies with the well-formedness of `Mix well⏎` only -/
+example : SameRecipe (α := Rat) (fun c => c = ' ')
+    (parseRecipe C17_toyEnv "Mix [- c -] well\n".toList) (parseRecipe C17_toyEnv "Mix well\n".toList) := by
+  have h := C17_insertion_in_text_same_recipe_inline_off_partial (α := Rat) C17_toyEnv (fun c => c = ' ') (by decide) []
+    [] [] [tk .newline ['\n']] [] [] [tk .word "Mix".toList, tk .ws [' ']]
+    [tk .blockComment "[- c -]".toList, tk .ws [' ']] [tk .word "well".toList]
+    (by intro t ht; simp only [List.mem_cons, List.not_mem_nil, or_false] at ht; rcases ht with rfl | rfl <;> rfl)
+    (by decide) (Or.inr (Or.inr ⟨"Mix".toList, ' ', by decide, by decide⟩)) (by intro s hs; cases hs)
+    (C17_exDocWF _ (by decide) (by
+      intro d hd
+      simp only [List.nil_append, List.mem_cons, List.not_mem_nil, or_false] at hd
+      subst hd; exact ⟨_, rfl⟩))
+    (by decide) (by decide)
+  have e1 : render ([] ++ docSpec ([] ++ (DocItem.step ([] ++ SegX.text ([tk .word "Mix".toList, tk .ws [' ']] ++
+      [tk .blockComment "[- c -]".toList, tk .ws [' ']] ++ [tk .word "well".toList]) :: []), [tk .newline ['\n']]) :: [])) =
+      "Mix [- c -] well\n".toList := by decide
+  have e2 : render ([] ++ docSpec ([] ++ (DocItem.step ([] ++ SegX.text ([tk .word "Mix".toList, tk .ws [' ']] ++
+      [tk .word "well".toList]) :: []), [tk .newline ['\n']]) :: [])) = "Mix well\n".toList := by decide
+  rw [e1, e2] at h
+  exact h
+-- ===== end w6c17docwf (part 3) =====
 
 end Cook
